@@ -508,6 +508,16 @@ let run () =
                let (judge_s, readn, pop_s) = if kind = "ensure" then ("promote", 0, f.(6)) else (f.(6), int_of_string f.(7), f.(8)) in
                let pk =
                  if pop_s = "notfound" then PopNotFound else if pop_s = "other" then PopOther
+                 else if String.length pop_s > 4 && String.sub pop_s 0 4 = "pnf:" then begin
+                   (* writes what it has, then reports NotFound *)
+                   let parts = String.split_on_char ':' pop_s in
+                   let (content, chunks) = (match parts with
+                       | ["pnf"; "rep"; c; k] -> ("rep:" ^ c ^ ":" ^ k, 1)
+                       | ["pnf"; "rep"; c; k; ch] -> ("rep:" ^ c ^ ":" ^ k, int_of_string ch)
+                       | ["pnf"; c] -> (c, 1)
+                       | ["pnf"; c; ch] -> (c, int_of_string ch)
+                       | _ -> ("empty", 1)) in
+                   PopPartialNF (chunks_of (expand content) chunks) end
                  else begin
                    let parts = String.split_on_char ':' pop_s in
                    let (content, chunks) = (match parts with
